@@ -199,6 +199,41 @@ def _delj_args(env, sw, axis, grids, nu, ms, gamma, h, beta, drec, name):
     return lambda cl, line: per[cl.k]
 
 
+def _py_delj(env, eps_rec, which, line, axis, grids, nu, ms, gamma, h, beta, label):
+    """Reference Chang-Cooper weights for the Python coefficient builders: numpy.exp was replaced by fresh eps
+    (recorded with its argument array, one call per axis in axis order).  Returns the list of delta_j for this line:
+    closed form of the defining property  M d + V/(2dx) = eps (V/(2dx) - M (1-d))  and emits the obligation that each
+    eps' argument equals 2 M dx / V."""
+    if which >= len(eps_rec):
+        env.fail(label + ':delj: numpy.exp not called for axis %d' % axis)
+        return None
+    if len(eps_rec[which]) != 4:
+        env.fail(label + ':delj: _compute_delj result not recorded')
+        return None
+    args, eps, res, fresh = eps_rec[which]
+    x = list(grids[axis])
+    L = len(x)
+    nd = len(line)
+    half = env.const('1/2')
+    others = [grids[d][line[d]] for d in range(nd) if d != axis]
+    out = []
+    for j in range(L - 1):
+        idx = tuple(j if d == axis else line[d] for d in range(nd))
+        e, arg = eps[idx], args[idx]
+        dx = x[j + 1] - x[j]
+        xm = (x[j] + x[j + 1]) * half
+        Mh = gamma * 2 * (h + (1 - 2 * h) * xm) * xm * (1 - xm)
+        for mk, yk in zip(ms, others):
+            Mh = Mh + mk * (yk - xm)
+        Vh = xm * (1 - xm) / nu
+        if beta is not None:
+            Vh = Vh * (beta + 1) * (beta + 1) / (4 * beta)
+        env.eq('%s:delj:exp-arg%s' % (label, list(idx)), arg, 2 * Mh * dx / Vh)
+        env.eq('%s:delj:weight%s' % (label, list(idx)), res[idx], ((e - 1) * Vh / (2 * dx) - e * Mh) / (Mh * (1 - e)))
+        out.append(fresh[idx])
+    return out
+
+
 def _delj_lemma_unit(N):
     """compute_delj from its own IR: free dx>0, MInt, VInt>0; exp -> fresh eps>0 with recorded argument.  On every
     path each weight is 1/2 (eps==1 or w==0) or satisfies the Chang-Cooper defining property: the discrete flux of
@@ -306,7 +341,49 @@ def _driver_unit(nd, L, mode, frozen=None, delj=0, only_sweep=None):
                         S.CUR.assume(T.t < d.t if nd >= 4 else T.t <= d.t)
                     return d
                 Integration._compute_dt = stub_dt
-                out = fn(phi.copy(), xx, T, **kw)
+                drec, eps_rec = [], []
+                if delj:
+                    def delj_hook(mod, dxp, mip, vip, N, dlp, use):
+                        k = len(drec)
+                        rd = lambda p: [mod.load(type(p)(p.reg, p.off + 8 * q), 'double') for q in range(N - 1)]
+                        d = [S.R('delj%d_%d' % (k, q)) for q in range(N - 1)]
+                        for q in range(N - 1):
+                            mod.store(type(dlp)(dlp.reg, dlp.off + 8 * q), d[q], 'double')
+                        drec.append(dict(dx=rd(dxp), MInt=rd(mip), VInt=rd(vip), d=d, use=use))
+                    si.ir.hooks['compute_delj'] = delj_hook
+
+                    def exp_stub(x):
+                        # contract stub for numpy.exp inside Integration (Python coefficient builders): fresh positive
+                        # eps per element, argument recorded (proved = 2 M dx / V below)
+                        arr = np.asarray(x, dtype=object)
+                        o = np.empty(arr.shape, dtype=object)
+                        for idx in np.ndindex(*arr.shape):
+                            e = S.R('eps%d_%s' % (len(eps_rec), '_'.join(map(str, idx))))
+                            S.CUR.assume(e.t > 0)
+                            o[idx] = e
+                        eps_rec.append((arr, o))
+                        return o
+                    object.__getattribute__(Integration.numpy, '_o')['exp'] = exp_stub
+                    orig_delj = Integration._compute_delj
+
+                    def delj_wrap(dx_, MInt_, VInt_, axis=0):
+                        # compositional: the real _compute_delj runs (with exp stubbed); its result is recorded and proved
+                        # equal to the Chang-Cooper closed form element by element, and the builders continue with fresh
+                        # weights D so that the coefficient obligations stay low-degree
+                        res = np.asarray(orig_delj(dx_, MInt_, VInt_, axis), dtype=object)
+                        fresh = np.empty(res.shape, dtype=object)
+                        for idx in np.ndindex(*res.shape):
+                            fresh[idx] = S.R('D%d_%s' % (len(eps_rec) - 1, '_'.join(map(str, idx))))
+                        eps_rec[-1] = eps_rec[-1] + (res, fresh)
+                        return fresh
+                    Integration._compute_delj = delj_wrap
+                try:
+                    out = fn(phi.copy(), xx, T, **kw)
+                finally:
+                    si.ir.hooks.pop('compute_delj', None)
+                    object.__getattribute__(Integration.numpy, '_o').pop('exp', None)
+                    if delj:
+                        Integration._compute_delj = orig_delj
                 sweeps = list(si.rec.sweeps)
                 # 1-D constant path goes through tridiag_cython.tridiag directly (no kernel sweep)
                 start = K.ref_inject(phi, grids, T, theta0, active)
@@ -315,7 +392,10 @@ def _driver_unit(nd, L, mode, frozen=None, delj=0, only_sweep=None):
                     env.holds('one tridiagonal call', len(calls) == 1)
                     if len(calls) == 1:
                         cl = calls[0]
-                        a, b, c = K.ref_abc(list(xx), [], nus[0], [], gammas[0], hs[0], T, beta, None, True, True,
+                        dl1 = None
+                        if delj:
+                            dl1 = _py_delj(env, eps_rec, 0, (None,), 0, [xx], nus[0], [], gammas[0], hs[0], beta, 'one_pop')
+                        a, b, c = K.ref_abc(list(xx), [], nus[0], [], gammas[0], hs[0], T, beta, dl1, True, True,
                                             half=env.const('1/2'))
                         for j in range(L):
                             if j >= 1:
@@ -353,8 +433,18 @@ def _driver_unit(nd, L, mode, frozen=None, delj=0, only_sweep=None):
                         env.holds('%s:delj flag' % sw.kernel, bool(sw.args[-1]) == bool(delj))
                     # the sweep starts from the current reference state
                     env.same('%s:input' % sw.kernel, sw.before, cur)
+                    dlf = None
+                    if delj and precalc:
+                        which = axes.index(ax)
+                        dlf = (lambda cl, line, which=which, ax=ax, ms_=ms_:
+                               _py_delj(env, eps_rec, which, line, ax, grids, nus[ax], ms_, gammas[ax], hs[ax], beta, sw.kernel))
+                    elif delj:
+                        nl = L ** (nd - 1)
+                        which = axes.index(ax)
+                        sub = drec[which * nl:(which + 1) * nl]
+                        dlf = _delj_args(env, sw, ax, grids, nus[ax], ms_, gammas[ax], hs[ax], beta, sub, sw.kernel)
                     K.check_sweep(env, sw, ax, grids, nus[ax], ms_, gammas[ax], hs[ax], T, beta, sw.kernel,
-                                  before=cur)
+                                  before=cur, delj=dlf)
                     cur = sw.after
                 if only_sweep is None or only_sweep == len(axes) - 1:
                     env.same('result', out, cur)
@@ -362,6 +452,16 @@ def _driver_unit(nd, L, mode, frozen=None, delj=0, only_sweep=None):
                 K.concrete_modules()
                 Integration._compute_dt = lambda *a: np.inf
                 out = fn(phi.copy(), xx, T, **kw)
+                if delj:
+                    # float replay with the trick on: the constant and the time-dependent driver must agree
+                    kw_other = {k_: ((lambda t, v=v_: v) if (mode == 'const' and not isinstance(v_, bool)) else
+                                     (v_(0.0) if callable(v_) else v_)) for k_, v_ in kw.items()}
+                    other = fn(phi.copy(), xx, T, **kw_other)
+                    a_, b_ = np.asarray(out, dtype=float), np.asarray(other, dtype=float)
+                    scale = np.abs(b_).max()
+                    for idx in np.ndindex(*a_.shape):
+                        env.holds('const vs func %s' % (idx,), abs(a_[idx] - b_[idx]) <= 1e-5 * scale)
+                    return
                 cur = K.ref_inject(phi, grids, T, theta0, active)
                 for ax in range(nd):
                     if not active[ax]:
@@ -372,7 +472,7 @@ def _driver_unit(nd, L, mode, frozen=None, delj=0, only_sweep=None):
         finally:
             Integration._compute_dt, Integration.use_delj_trick = saved
     fz = ''.join('F' if f else '-' for f in frozen)
-    return H.Unit('driver-%dpop-%s-L%d-frozen%s%s' % (nd, mode, L, fz, '' if only_sweep is None else '-sweep%d' % only_sweep),
+    return H.Unit('driver-%dpop-%s-L%d-frozen%s%s%s' % (nd, mode, L, fz, '' if only_sweep is None else '-sweep%d' % only_sweep, '-delj1' if delj else ''),
                   body, params=dict(pops=nd, mode=mode, L=L, frozen=list(frozen), delj=delj, only_sweep=only_sweep),
                   min_obligations=L ** nd, timeout_s=1200, query_timeout_ms=60000, maxpaths=200)
 
@@ -404,6 +504,8 @@ def units(tier, seed):
                     us.append(_driver_unit(nd, L, mode, only_sweep=sweep))
             else:
                 us.append(_driver_unit(nd, L, mode))
+                if nd <= 2 or (thorough and nd == 3):
+                    us.append(_driver_unit(nd, L, mode, delj=1))
         if nd in (2, 3):
             for fz in itertools.product([False, True], repeat=nd):
                 if any(fz) and not all(fz):
